@@ -2,6 +2,7 @@ package world
 
 import (
 	"fmt"
+	dbm "github.com/cosmos/cosmos-db"
 	"sort"
 	"strconv"
 	"time"
@@ -16,7 +17,7 @@ import (
 	ibctm "github.com/bianjieai/tibc-go/modules/tibc/light-clients/07-tendermint/types"
 )
 
-var ChainNames = []string{"chain-alpha", "chain-bravo", "chain-charl", "chain-delta"}
+var ChainNames = []string{"chainalpha", "chainbravo", "chaincharl", "chaindelta"}
 
 // World is a set of chains sharing one clock.
 type World struct {
@@ -87,11 +88,12 @@ func New(cfg Config) *World {
 }
 
 func NewChainWithLog(w *World, cfg ChainConfig, keep bool) *Chain {
-	app := newApp(cfg.Name)
+	db := dbm.NewMemDB()
+	app := newAppOn(cfg.Name, db)
 	vals, signers := deterministicValidators(cfg.Name)
 	accs := deterministicAccounts(cfg.Name)
 	gs := BuildGenesis(app, cfg, vals, accs)
-	c := &Chain{W: w, Name: cfg.Name, App: app, Vals: vals, Signers: signers, Accounts: accs,
+	c := &Chain{W: w, Name: cfg.Name, App: app, DB: db, Vals: vals, Signers: signers, Accounts: accs,
 		blocks: map[int64]blockInfo{}, headers: map[int64]*ibctm.Header{}, Genesis: gs, KeepLog: keep}
 	c.initChain()
 	return c
